@@ -16,6 +16,10 @@ type ConvOpts struct {
 	NoCtl      bool // no control frames at all
 	// Text, if set, produces the payload of text messages (default: valid UTF-8 from a small alphabet).
 	Text func(t *rapid.T, label string, max int) []byte
+
+	// fixedKey, when set by Conversation, masks every frame with the same key
+	// (a peer may reuse its masking key; the reader must restart the key phase per frame).
+	fixedKey *[4]byte
 }
 
 var utf8Alphabet = []string{"a", "b", "z", " ", "é", "ß", "€", "漢", "😀", "߿", "ࠀ", "￿", "\U00010000", "\U0010ffff"}
@@ -56,9 +60,17 @@ func CtlFrame(t *rapid.T, label string, masked bool) ref.Frame {
 }
 
 func frame(t *rapid.T, label string, op byte, fin, masked bool, p []byte) ref.Frame {
+	return frameK(t, label, op, fin, masked, p, nil)
+}
+
+func frameK(t *rapid.T, label string, op byte, fin, masked bool, p []byte, fixed *[4]byte) ref.Frame {
 	h := ref.Header{Fin: fin, Op: op, Masked: masked}
 	if masked {
-		h.Mask = Key(t, label+".key")
+		if fixed != nil {
+			h.Mask = *fixed
+		} else {
+			h.Mask = Key(t, label+".key")
+		}
 	}
 	return ref.Frame{H: h, Payload: p}
 }
@@ -113,7 +125,7 @@ func Message(t *rapid.T, label string, o ConvOpts, big bool) []ref.Frame {
 		if i > 0 {
 			fop = ref.OpCont
 		}
-		fs = append(fs, frame(t, label+".frag", fop, i == len(parts)-1, o.Masked, p))
+		fs = append(fs, frameK(t, label+".frag", fop, i == len(parts)-1, o.Masked, p, o.fixedKey))
 		if i < len(parts)-1 && !o.NoCtl {
 			for k := rapid.IntRange(0, 2).Draw(t, label+".nctl"); k > 0 && rapid.IntRange(0, 2).Draw(t, label+".ctl?") == 0; k-- {
 				fs = append(fs, CtlFrame(t, label+".ictl", o.Masked))
@@ -130,6 +142,14 @@ func Conversation(t *rapid.T, label string, o ConvOpts) []ref.Frame {
 		maxMsgs = 4
 	}
 	n := rapid.IntRange(1, maxMsgs).Draw(t, label+".msgs")
+	if o.Masked && rapid.IntRange(0, 3).Draw(t, label+".samekey") == 0 {
+		k := [4]byte{rapid.Byte().Draw(t, label+".k0"), rapid.Byte().Draw(t, label+".k1"), rapid.Byte().Draw(t, label+".k2"), rapid.Byte().Draw(t, label+".k3")}
+		if k[0] == k[1] && k[1] == k[2] && k[2] == k[3] {
+			k[1] ^= 0x55
+			k[3] ^= 0xa7
+		}
+		o.fixedKey = &k
+	}
 	bigAt := -1
 	if o.Big && rapid.IntRange(0, 7).Draw(t, label+".big?") == 0 {
 		bigAt = rapid.IntRange(0, n-1).Draw(t, label+".bigat")
